@@ -111,7 +111,7 @@ where
 //@ret r
 //@spec
         ensures r.val() == seq_sum(member_areas(self.0@), self.0@.len() as int),
-//@closure 1 `|total, next| total + next.signed_area()` | total: T, next: &Polygon<T> | o: T
+//@closure 1 `|total, next|` | total: T, next: &Polygon<T> | o: T
             ensures o.val() == total.val() + polygon_area(*next)
 //@entry
         proof { T::ax_obeys(); T::ax_ring(); }
@@ -121,7 +121,7 @@ where
 //@ret r
 //@spec
         ensures r.val() == seq_sum(member_abs_areas(self.0@), self.0@.len() as int),
-//@closure 1 `|total, next| total + next.signed_area().abs()` | total: T, next: &Polygon<T> | o: T
+//@closure 1 `|total, next|` | total: T, next: &Polygon<T> | o: T
             ensures o.val() == total.val() + iabs(polygon_area(*next))
 //@entry
         proof { T::ax_obeys(); T::ax_ring(); }
